@@ -301,6 +301,38 @@ def interval_loop(width: int, start: int, name: str = "ival"):
     return {"spec": {"name": name, "nodes": nodes, "bind": {}}, "inputs": inputs, "ref": ref, "template": f"interval(width={width})"}
 
 
+def two_exit_loop(x0: int, goal: int, cap: int, gates_first: str = "conv", name: str = "twoexit"):
+    """Two exit conditions that share ONE exit node: `conv(x)` routes to work|finish, `budget(y)` (ifelse) routes to
+    finish|evaluate.  work(x)->y = x+3; evaluate(y)->x = y-1; finish(x)->result.  The exit node is a target of both
+    gates: whichever gate ends the loop, the body runs as often as the gates dictate and the exit runs once."""
+    work = {"k": "fn", "name": "work", "params": [{"n": "x"}], "outs": ["y"], "beh": ["addc", "x", 3]}
+    evaluate = {"k": "fn", "name": "evaluate", "params": [{"n": "y"}], "outs": ["x"], "beh": ["addc", "y", -1]}
+    finish = {"k": "fn", "name": "finish", "params": [{"n": "x"}], "outs": ["result"], "beh": ["mark", "x", "done"]}
+    budget = {"k": "ifelse", "name": "budget", "params": [{"n": "y"}], "t": "finish", "f": "evaluate", "cond": ["ge", "y", cap + 1], "open": False}
+    conv = {"k": "route", "name": "conv", "params": [{"n": "x"}], "targets": ["work", "finish"], "cond": ["ge", "x", goal], "then": "finish", "else": "work", "open": False}
+    gates = [conv, budget] if gates_first == "conv" else [budget, conv]
+    nodes = [work, evaluate, finish, *gates]
+    inputs = {"x": x0}
+    trace = []
+    x = x0
+    while True:
+        trace.append(("conv", {}))
+        if x >= goal:
+            break
+        y = x + 3
+        trace.append(("work", {"y": y}))
+        trace.append(("budget", {}))
+        if y > cap:
+            break
+        x = y - 1
+        trace.append(("evaluate", {"x": x}))
+    trace.append(("finish", {"result": ("done", x)}))
+    vals = _fold(inputs, trace)
+    vals.setdefault("x", x0)
+    ref = {"trace": None, "values": vals, "counts": _counts(trace), "singleton_steps": False, "steps": len(trace)}
+    return {"spec": {"name": name, "nodes": nodes, "bind": {}}, "inputs": inputs, "ref": ref, "template": f"two_exit({gates_first})"}
+
+
 def nested_loop(n_limit: int, c0: int, body_len: int = 1, gate: str = "route", depth: int = 1):
     """T7: the counter loop wrapped as a nested graph inside a DAG: pre -> [loop] -> post."""
     inner = counter_loop(n_limit, c0 + 1, body_len, gate, name="inner")
@@ -337,6 +369,8 @@ def gen_loop(rng):
     t = rng.choice(["counter", "counter", "counter", "acc", "signal", "signal", "nested", "entry", "twoacc", "lagged"])
     n = rng.randint(0, 7)
     c0 = rng.randint(0, 3)
+    if rng.random() < 0.08:
+        return two_exit_loop(rng.randint(0, 3), rng.choice([0, 2, 6, 9, 100]), rng.choice([3, 5, 8, 100]), rng.choice(["conv", "budget"]))
     if rng.random() < 0.08:
         return interval_loop(rng.randint(2, 12), rng.randint(0, 4))
     if t == "lagged":
